@@ -233,6 +233,32 @@ Theorem C08_rearrange_accepted_strict_call_delivers : forall zx zy sx sy dx dy p
       occ_find (nth (nth i sx 0%nat) zx 0%Q, nth (nth j sy 0%nat) zy 0%Q) O.
 Proof. exact rearrange_model_delivers. Qed.
 
+(* rearrange, "valid inputs are not rejected and end where documented": on a zone where parking is possible (parking_ok: the +-3 parking
+   columns stay in order along the zone and neighbouring rows are more than 6 apart - decided by computation for every enumerated
+   layout), EVERY call meeting the documented preconditions is accepted with pairwise different parking coordinates ... *)
+Theorem C08_rearrange_documented_call_is_accepted : forall zx zy sx sy dx dy,
+  ascending_q zx -> ascending_q zy -> parking_ok zx zy = true -> rearrange_preconditionsb zx zy sx sy dx dy = true ->
+  exists ps, rearrange_model zx zy sx sy dx dy = Some ps /\ ps <> [] /\ rearrange_strict zx zy sx sy dx dy = true.
+Proof. exact rearrange_documented_call_is_accepted_and_strict. Qed.
+
+(* ... and therefore (with C08_rearrange_accepted_strict_call_delivers) executable, delivering zone[src] to zone[dst] *)
+Theorem C08_rearrange_documented_call_delivers : forall zx zy sx sy dx dy O,
+  ascending_q zx -> ascending_q zy -> parking_ok zx zy = true -> rearrange_preconditionsb zx zy sx sy dx dy = true ->
+  occ_wfb O = true ->
+  forallb (fun p => match occ_find p O with None => true | Some _ => existsb (pos_eqb p) (grid_sites (pick_coords sx zx, pick_coords sy zy)) end)
+          (grid_sites (pick_coords dx zx, pick_coords dy zy)) = true ->
+  exists ps st', rearrange_model zx zy sx sy dx dy = Some ps /\
+    sim_paths (mkast (grid_sites (zx, zy)) O [] [] []) ps = AOk st' /\ held st' = [] /\
+    forall i j, (i < length sx)%nat -> (j < length sy)%nat ->
+      occ_find (nth (nth i dx 0%nat) zx 0%Q, nth (nth j dy 0%nat) zy 0%Q) (occ st') =
+      occ_find (nth (nth i sx 0%nat) zx 0%Q, nth (nth j sy 0%nat) zy 0%Q) O.
+Proof.
+  intros zx zy sx sy dx dy O Ax Ay Hp Hpre HO Hd.
+  destruct (rearrange_documented_call_is_accepted_and_strict zx zy sx sy dx dy Ax Ay Hp Hpre) as [ps [E [NE Hs]]].
+  destruct (rearrange_model_delivers zx zy sx sy dx dy ps O Ax Ay HO E NE Hs Hd) as [st' H].
+  exists ps, st'. split; [exact E | exact H].
+Qed.
+
 (* the full statement "every accepted rearrange call is executable" is FALSE of the faithful model: the hard-coded +-3 parking offsets
    make two tweezers coincide on a zone with pair pitch 6 (known finding; the witness is the replay) *)
 Theorem C08_rearrange_acceptance_alone_refuted :
@@ -246,12 +272,17 @@ Example C08_library_kernel_hypotheses_hold_somewhere :
   cz_preconditions [0; 10#1; 20#1]%Q [0; 10#1]%Q [0%nat] [0%nat; 1%nat] [1%nat] [0%nat; 1%nat] /\
   (exists ps, cz_model [0; 10#1; 20#1]%Q [0; 10#1]%Q [0%nat] [0%nat; 1%nat] [1%nat] [0%nat; 1%nat] (2#1) (2#1) = Some ps /\ length ps = 2%nat) /\
   (exists ps, rearrange_model [0; 2#1; 12#1; 14#1]%Q [0; 10#1]%Q [1%nat; 2%nat] [0%nat] [0%nat; 3%nat] [1%nat] = Some ps /\ length ps = 1%nat) /\
-  rearrange_strict [0; 2#1; 12#1; 14#1]%Q [0; 10#1]%Q [1%nat; 2%nat] [0%nat] [0%nat; 3%nat] [1%nat] = true.
+  rearrange_strict [0; 2#1; 12#1; 14#1]%Q [0; 10#1]%Q [1%nat; 2%nat] [0%nat] [0%nat; 3%nat] [1%nat] = true /\
+  parking_ok [0; 2#1; 12#1; 14#1]%Q [0; 10#1]%Q = true /\ parking_ok [0; 2#1; 8#1; 10#1]%Q [0; 6#1]%Q = false /\
+  rearrange_preconditionsb [0; 2#1; 12#1; 14#1]%Q [0; 10#1]%Q [1%nat; 2%nat] [0%nat] [0%nat; 3%nat] [1%nat] = true.
 Proof.
-  split; [|split; [|split]].
+  split; [|split; [|split; [|split; [|split; [|split]]]]].
   - unfold cz_preconditions. simpl. repeat split; try lia; intros i [<- | [<- | []]] || intros i [<- | []]; lia.
   - eexists. split; [vm_compute; reflexivity | reflexivity].
   - eexists. split; [vm_compute; reflexivity | reflexivity].
+  - vm_compute. reflexivity.
+  - vm_compute. reflexivity.
+  - vm_compute. reflexivity.
   - vm_compute. reflexivity.
 Qed.
 
@@ -276,3 +307,5 @@ Print Assumptions C08_rearrange_accepted_strict_call_delivers.
 Print Assumptions C08_rearrange_acceptance_alone_refuted.
 Print Assumptions C08_legs_simulate_as_the_merged_path.
 Print Assumptions C08_recognised_multi_leg_move_is_executable_and_delivers.
+Print Assumptions C08_rearrange_documented_call_is_accepted.
+Print Assumptions C08_rearrange_documented_call_delivers.
